@@ -198,6 +198,10 @@ SCtx(r) == { Bn(">", r, NumA("0")), Bn("=", r, StrA("$s")), Un("not", r),
              Bn("in", Own("n"), Rng("[", NumA("0"), r, "]")), Bn("in", Own("n"), SetOf(<<r, NumA("1")>>)),
              Bn(">", Call("abs", r), NumA("0")), Bn(">", Call("abs", Bn("+", r, NumA("1"))), Own("n")),
              Qn("forall", "j", Own("xs"), Bn(">", VarR("@j"), r)),
+             \* the reference inside a LITERAL domain of a quantifier: a range bound (also under an operator), a set element
+             Qn("forall", "j", Rng("[", NumA("0"), r, "]"), Bn(">", Idx(Own("xs"), VarR("@j")), NumA("0"))),
+             Qn("exists", "j", Rng("![", Bn("-", r, NumA("1")), NumA("9"), "]"), Bn(">", VarR("@j"), Own("n"))),
+             Qn("exists", "j", SetOf(<<NumA("0"), r>>), Bn(">", VarR("@j"), Own("n"))),
              Bn("and", Bn(">", Own("n"), NumA("0")), Bn("<", r, Own("k"))) }
 SACtx(a) == { Qn("forall", "j", a, Bn(">", VarR("@j"), NumA("0"))), Bn("in", Own("n"), a), Bn(">", Call("len", a), NumA("0")) }
 SPreds == UNION {SCtx(r) : r \in SRefs} \cup UNION {SACtx(a) : a \in SArrs}
